@@ -114,6 +114,18 @@ mod hist {
     #[derive(TS)]
     #[ts(export_to = "shared.ts")]
     pub struct B { pub y: String }
+    /** Doc of M, first paragraph
+
+second paragraph after a blank line */
+    #[derive(TS)]
+    #[ts(export_to = "shared.ts")]
+    pub struct M { pub m: i32 }
+    #[derive(TS)]
+    #[ts(export_to = "shared.ts")]
+    pub struct Z {
+        /// mentions export type Aaa in a field doc
+        pub z: i32,
+    }
     #[derive(TS)]
     pub struct C { pub a: A, pub b: Option<B> }
     #[derive(TS)]
@@ -129,7 +141,7 @@ fn export_step(kind: &str, ty: &str, dir: Option<&str>) -> Result<(), String> {
         "export_all_to" => <$t>::export_all_to(dir.unwrap()),
         _ => panic!("unknown step kind"),
     } } }
-    let r = match ty { "A" => go!(hist::A), "B" => go!(hist::B), "C" => go!(hist::C), "D" => go!(hist::D), _ => panic!("unknown type") };
+    let r = match ty { "A" => go!(hist::A), "B" => go!(hist::B), "C" => go!(hist::C), "D" => go!(hist::D), "M" => go!(hist::M), "Z" => go!(hist::Z), _ => panic!("unknown type") };
     r.map_err(|e| format!("{e:?}"))
 }
 
